@@ -41,7 +41,7 @@ const opQuiet = 0x40000
 func acceptedSet(b *board.Board) []uint64 {
 	var acc []uint64
 	for m := 0; m < 32768; m++ {
-		if b.IsPseudoLegal(move.Move(m)) {
+		if b.IsPseudoLegal(hx.U2M(uint64(m))) {
 			acc = append(acc, uint64(m))
 		}
 	}
@@ -85,7 +85,7 @@ func runC05s(a hx.Args) string {
 		case op == opNull:
 			stack = append(stack, seqFrame{null: true, r: b.MakeNullMove()})
 		default:
-			m := move.Move(op)
+			m := hx.U2M(uint64(op))
 			stack = append(stack, seqFrame{m: m, r: b.MakeMove(m)})
 		}
 		if !quiet {
@@ -214,7 +214,7 @@ func c05sWalk(rng *hx.Rng, b *board.Board) (ops []uint64, tags map[string]bool, 
 			}
 			me := b.STM
 			r := b.MakeMove(m)
-			add(uint64(m))
+			add(hx.M2U(m))
 			if b.InCheck(me) {
 				b.UndoMove(m, r)
 				add(opPop)
